@@ -993,7 +993,9 @@ func c07ApplyWalk(tx *pb.Transaction, mut c07Mut) (*pb.Transaction, error) {
 func c07Scope(path string, version int32) string {
 	top, _, _ := c07ParseSeg(strings.Split(path, ".")[0])
 	switch top {
-	case "txid", "blockid", "received_timestamp", "modify_block":
+	case "txid":
+		return "txid"
+	case "blockid", "received_timestamp", "modify_block":
 		return "outside"
 	case "initiator_signs", "auth_require_signs", "xuper_sign":
 		return "sigcarrier"
@@ -1707,6 +1709,12 @@ func (x *c07Ctx) eval(mut c07Mut, reg *c07Registry, sampleSubmit bool) (res c07R
 		case "outside":
 			res.Skip = "outside-statement"
 			return res
+		case "txid":
+			// the id itself: anything but the hash of the content must be refused
+			if ok, _ := x.verify(m); ok {
+				return fail("stale", "txid %s: the transaction is accepted although its id is not the hash of its content", mut.Kind)
+			}
+			return res
 		case "sigcarrier":
 			if bytes.Equal(c07ID(m), T.Txid) {
 				res.Skip = "null-reencoding"
@@ -1719,10 +1727,10 @@ func (x *c07Ctx) eval(mut c07Mut, reg *c07Registry, sampleSubmit bool) (res c07R
 			// the same valid signature; the semantic signature mutations are separate (class sig)
 			m.Txid = c07ID(m)
 			if ok, why := x.verify(m); ok {
-				res.Labels = append(res.Labels, "sigcarrier-reencoded-accepted")
+				res.Labels = append(res.Labels, "sigcarrier-reencoded-accepted", "sigcarrier-accepted:"+c07StripIdx(mut.Path)+"/"+mut.Kind)
 			} else if strings.HasPrefix(why, "PANIC") {
 				res.Labels = append(res.Labels, "sigcarrier-panic")
-				if !c07Exclude[c07FindXsPanic] {
+				if !c07Exclude[c07FindXsPanic] || c07TopField(mut) != "xuper_sign" {
 					return fail("fresh", "%s %s: the verifier panics instead of rejecting: %s", mut.Path, mut.Kind, why)
 				}
 			}
@@ -2083,7 +2091,11 @@ func c07GenBase(rt *rapid.T, nm *hx.NodeMachine) (*c07Base, error) {
 	if b.Form == "acctinit" || b.Form == "acctin" || rapid.IntRange(0, 5).Draw(rt, "acctanyway") == 0 {
 		a := g.drawAcct(rapid.SampledFrom([]string{"1111111111111111", "2222222222222222", "1234567890123456"}).Draw(rt, "acctnum"))
 		creator := rapid.IntRange(0, 4).Draw(rt, "creator")
-		spec, ok := g.newAccountSpec(a, creator, int32(rapid.SampledFrom([]int{1, 2, 3}).Draw(rt, "acctver")))
+		acctver := int32(rapid.SampledFrom([]int{1, 2, 3}).Draw(rt, "acctver"))
+		spec, ok := g.newAccountSpec(a, creator, acctver)
+		for i := 1; i < 5 && !ok; i++ {
+			spec, ok = g.newAccountSpec(a, (creator+i)%5, acctver)
+		}
 		if !ok {
 			return b, fmt.Errorf("setup: creator %d cannot pay for the account", creator)
 		}
@@ -2095,6 +2107,11 @@ func c07GenBase(rt *rapid.T, nm *hx.NodeMachine) (*c07Base, error) {
 		}
 		funder := rapid.IntRange(0, 4).Draw(rt, "funder")
 		ins, tot, ok := g.payer(funder, big.NewInt(9000))
+		for i := 1; i < 5 && !ok; i++ {
+			if ins, tot, ok = g.payer((funder+i)%5, big.NewInt(9000)); ok {
+				funder = (funder + i) % 5
+			}
+		}
 		if !ok {
 			return b, fmt.Errorf("setup: funder %d cannot fund the account", funder)
 		}
